@@ -322,6 +322,8 @@ pub struct Case<'a> {
     pub base_before: Vec<(usize, usize)>,
     /// running hash of every operation, outcome and snapshot of this case
     pub trace: u64,
+    /// a vector reports an absurd length: it is leaked instead of dropped (dropping would never finish)
+    pub poisoned: bool,
 }
 
 pub const NVECS: usize = 3;
@@ -359,6 +361,7 @@ impl<'a> Case<'a> {
             check_clones: true,
             base_before: Vec::new(),
             trace: 0,
+            poisoned: false,
         }
     }
 
@@ -661,8 +664,12 @@ impl<'a> Case<'a> {
             }
             if s.len > s.cap {
                 self.failed = true;
+                self.poisoned = true;
                 ctx.report(&cfgname, "len>cap", sig, format!("v{v}: len {} > capacity {}", s.len, s.cap), desc);
                 continue;
+            }
+            if s.len > (1 << 26) {
+                self.poisoned = true;
             }
             if s.is_empty != (s.len == 0) {
                 self.failed = true;
@@ -849,6 +856,19 @@ impl<'a> Case<'a> {
         }
         let desc = format!("{} | teardown", self.desc);
         let cfgname = self.cfg.name.clone();
+        if self.poisoned {
+            // the vector's bookkeeping is corrupt (already reported): dropping it could run forever or crash
+            self.leaks_ok = true;
+            let rig = std::mem::replace(&mut self.rig, Box::new(crate::rigapi::NullRig));
+            std::mem::forget(rig);
+            for v in reg::take_violations() {
+                ctx.report(&cfgname, v.kind, "drop", v.detail, &desc);
+            }
+            guardmem::flush_quarantine();
+            monalloc::flush_quarantine();
+            let _ = monalloc::drain_events();
+            return false;
+        }
         if let Some(msg) = self.rig.teardown() {
             self.failed = true;
             ctx.report(&cfgname, "model", "drop", format!("dropping the vectors panicked: {msg}"), &desc);
